@@ -7,6 +7,12 @@ CLAIMED = {
  "C05": ("model_checking", "bounded symbolic execution of the real loaders (go/ssa -> SMT-LIB2 bit-vectors, z3)",
          "Every metadata field is proved equal to the container specification's bytes by an unsat verdict over all values of every symbolic header/payload byte of the skeleton files; bounded by skeleton shape (<=2 ancillary chunks/segments, payloads <=5 bytes).",
          "Trusted: go/ssa construction, the gosym executor (cross-validated natively on sampled path models each run), z3 4.8.12. Oracle is the PNG/JPEG/RIFF-WebP byte layout written in the harness, not DecodeConfig.", "DESIGN.md 5 C05"),
+ "C07": ("model_checking", "bounded symbolic execution of the four Load functions with a symbolic-content, scheduled, fault-injecting source (go/ssa -> SMT-LIB2, z3)",
+         "On every feasible path over N arbitrary symbolic bytes (every truncation, every fault position, three delivery schedules) and over every truncation of skeleton files, the drained stream equals the delivered source bytes and surfaces the injected error; bounded by N (PNG 28, JPEG 14, WebP 40, auto 12 in quick).",
+         "Trusted: executor (cross-validated natively on sampled paths), z3; zlib replaced by a nondeterministic stub (inflate not modelled); path feasibility is the solver's, byte equality is term identity.", "DESIGN.md 5 C07"),
+ "C08": ("model_checking", "two-run (2-safety) bounded symbolic execution: full delivery vs. chunked delivery of the same symbolic content",
+         "Metadata, ICC bytes/error-ness and success outcome are proved identical between a fully delivering reader and readers delivering 1,2,3,7-byte chunks (with and without data+EOF), for skeleton files with symbolic fields, small arbitrary inputs, and the ICC reader behind bufio.",
+         "Trusted: executor, z3, deterministic zlib stub. Schedules are the enumerated fixed chunk sizes, not all compositions; sizes around 4096 are outside the bound.", "DESIGN.md 5 C08"),
  "C16": ("model_checking", "bounded symbolic execution of icc.ProfileReader (go/ssa -> SMT-LIB2 bit-vectors, z3)",
          "All 2^1024 headers carrying 'acsp' are covered by one symbolic 128-byte header; each Header field is a bit-vector identity against ICC.1:2010 Table 17 offsets; a header with any other signature is shown to be rejected.",
          "Trusted: executor, z3, stubs for fmt.Sprintf (format+argument terms compared) and time.Date (argument terms compared). Tag table is a fixed minimal one.", "DESIGN.md 5 C16"),
